@@ -8,7 +8,7 @@ mod verif_midpoint {
     #[allow(unused_imports)]
     use std::{vec, vec::Vec};
 
-    //@defaults unit=U09.6 props=C09 tier=quick level=complete timeout=900
+    //@defaults unit=U09.6 props=C09 tier=thorough level=complete timeout=2400
     //@harness fns=is_mid_point,OtRound::ot_round,util::isclose note="all integer coordinates of the i16 design grid"
     #[kani::proof]
     fn is_mid_point_exact_on_integer_grid() {
